@@ -1,6 +1,7 @@
 SPECIFICATION SchedSpec
 CONSTANTS Messages <- MCMessages
           AsCoded = FALSE
+          Gated = FALSE
           Mode = "http"
           MaxMsgs = 1
           HasTimeout = TRUE
